@@ -155,23 +155,29 @@ def handlePlaces : Option S → Res (Option Int)
 inductive NumArg | i (z : Int) | s (str : List Char)
   deriving DecidableEq, Repr
 
+/-- the first half of `handle_number` for an origin other than `dec`: the text of the argument
+    (`as_str`). -/
+def asStr (number : S) : Res (List Char) :=
+  match number with
+  | .blank => .ok ['0']
+  | .num (.int z) => .ok (intRepr z)
+  | .num (.flt q) => if q.isInt then .ok (intRepr (truncRat q)) else .err .num
+  | .text s => .ok (if s.isEmpty then ['0'] else s)
+  | _ => .crash .other          -- a DateTime: `as_str` is unbound (UnboundLocalError)
+
+/-- the second half: at most ten characters, all of them permitted digits of the origin. -/
+def checkDigits (s : List Char) (origin : EBase) : Res NumArg :=
+  if s.length > 10 then .err .num else
+    match lookup origin permittedDigits with
+    | none => .crash .keyError
+    | some perm => if s.all (fun c => decide (c ∈ perm)) then .ok (.s s) else .err .num
+
 def handleNumber (number : S) (origin : EBase) : Res NumArg :=
   match number with
   | .bool _ => .err .value
   | _ =>
-    if origin = .dec then (toInt number).map .i else
-      let asStr : Res (List Char) :=
-        match number with
-        | .blank => .ok ['0']
-        | .num (.int z) => .ok (intRepr z)
-        | .num (.flt q) => if q.isInt then .ok (intRepr (truncRat q)) else .err .num
-        | .text s => .ok (if s.isEmpty then ['0'] else s)
-        | _ => .crash .other          -- a DateTime: `as_str` is unbound (UnboundLocalError)
-      asStr.bind fun s =>
-        if s.length > 10 then .err .num else
-          match lookup origin permittedDigits with
-          | none => .crash .keyError
-          | some perm => if s.all (fun c => decide (c ∈ perm)) then .ok (.s s) else .err .num
+    if origin = .dec then (toInt number).map .i
+    else (asStr number).bind fun s => checkDigits s origin
 
 def padZeroes (string : List Char) (wasNegative : Bool) (places : Option Int) : Res (List Char) :=
   match places with
@@ -203,7 +209,7 @@ def fromDigits (str : List Char) (origin : EBase) : Res Int :=
         | some mask => .ok (pyAnd (Int.ofNat asInt) (~~~(Int.ofNat mask)) - pyAnd (Int.ofNat asInt) (Int.ofNat mask))
 
 /-- the tail of `conversion` once `value` is known and inside the bounds, destination not `dec`. -/
-def toDigits (value : Int) (destination : EBase) (places : Option Int) : Res (List Char) :=
+def renderDigits (value : Int) (destination : EBase) (places : Option Int) : Res (List Char) :=
   let wasNegative := decide (value < 0)
   let wrapped : Res Int :=
     if wasNegative then
@@ -217,23 +223,25 @@ def toDigits (value : Int) (destination : EBase) (places : Option Int) : Res (Li
     (pyBaseRepr destination v).bind fun r =>
       padZeroes ((r.drop 2).map upperChar) wasNegative places
 
+/-- the head of `conversion`: the integer the validated argument denotes. -/
+def valueOfArg (number : NumArg) (origin : EBase) : Res Int :=
+  if origin = .dec then
+    match number with
+    | .i z => .ok z
+    | .s _ => .crash .typeError
+  else
+    match number with
+    | .i _ => .crash .typeError
+    | .s str => fromDigits str origin
+
 def conversion (number : NumArg) (origin destination : EBase) (places : Option Int) : Res S :=
-  let value : Res Int :=
-    if origin = .dec then
-      match number with
-      | .i z => .ok z
-      | .s _ => .crash .typeError
-    else
-      match number with
-      | .i _ => .crash .typeError
-      | .s str => fromDigits str origin
-  value.bind fun value =>
+  (valueOfArg number origin).bind fun value =>
     match lookupBound origin destination with
     | none => .crash .keyError
     | some bound =>
       if ¬ (-bound ≤ value ∧ value < bound) then .err .num
       else if destination = .dec then .ok (.num (.int value))
-      else (toDigits value destination places).map .text
+      else (renderDigits value destination places).map .text
 
 /-- `convert_bases`; `places = none` is Python's `None` (the `…2DEC` wrappers), `some none` is `UNUSED`. -/
 def convertBases (number : S) (origin destination : EBase) (places : Option (Option S)) : Res S :=
@@ -247,15 +255,21 @@ def convertBases (number : S) (origin destination : EBase) (places : Option (Opt
     `sig.bind` (TypeError for an argument the wrapper does not take), an `ExcelError` argument is
     returned at once, `XlAnything` arguments are kept as they are, the result is cast to
     `XlText` / `XlNumber`. -/
+def argError : S → Option Code
+  | .err c => some c
+  | _ => none
+
 def call (name : List Char) (number : S) (places : Option S) : Res S :=
   match lookup name wrappers with
   | none => .crash .keyError
   | some (origin, destination, takesPlaces) =>
     if ¬ takesPlaces ∧ places.isSome then .crash .typeError else
-      match number, places with
-      | .err c, _ => .err c
-      | _, some (.err c) => .err c
-      | _, _ => convertBases number origin destination (if takesPlaces then some places else none)
+      match argError number with
+      | some c => .err c
+      | none =>
+        match places.bind argError with
+        | some c => .err c
+        | none => convertBases number origin destination (if takesPlaces then some places else none)
 
 def DEC2BIN := call ['D', 'E', 'C', '2', 'B', 'I', 'N']
 def DEC2OCT := call ['D', 'E', 'C', '2', 'O', 'C', 'T']
